@@ -98,7 +98,63 @@ func appendEvent(l *log.AsyncLogger, level log.Level, id string) {
 	l.Append(e)
 }
 
+// c04backlog: Stop must wait for the whole backlog however long the appender takes: with a slow appender
+// the queue holds several seconds of work when Stop is called; afterwards every item must be delivered.
+func c04backlog(w *W) {
+	registerMonitorPlugins()
+	perItem := time.Duration(w.ArgInt("delay_us", 5000)) * time.Microsecond
+	n := int(w.Spec.N)
+	for _, policy := range []string{"Block", "DiscardOldest"} {
+		asyncSeq++
+		sinkName := fmt.Sprintf("bl%d", asyncSeq)
+		ap := &VSlow{AppenderBase: log.AppenderBase{Name: sinkName}, DelayUS: int(perItem / time.Microsecond)}
+		all := log.LevelRange{MinLevel: log.NoneLevel, MaxLevel: log.MaxLevel}
+		pol := map[string]log.BufferFullPolicy{"Block": log.BufferFullPolicyBlock, "DiscardOldest": log.BufferFullPolicyDiscardOldest}[policy]
+		l := &log.AsyncLogger{LoggerBase: log.LoggerBase{Name: "backlog", Level: all}, BufferSize: n + 100, BufferFullPolicy: pol,
+			AppenderRefs: log.AppenderRefs{AppenderRefs: []*log.AppenderRef{{Appender: ap, Level: all}}}}
+		if err := l.Start(); err != nil {
+			w.Violate("C04:start-failed", err.Error(), nil)
+			return
+		}
+		rec.take()
+		for i := 0; i < n; i++ {
+			id := fmt.Sprintf("id-b%sx%d-%d", policy[:1], w.Spec.Shard, i)
+			if i%5 == 4 {
+				l.Write([]byte("raw " + id + "\n"))
+			} else {
+				appendEvent(l, log.InfoLevel, id)
+			}
+		}
+		cs := map[string]any{"scenario": "backlog", "policy": policy, "items": n, "per_item": perItem.String(), "backlog": (time.Duration(n) * perItem).String()}
+		w.Journal("C04 backlog %v", cs)
+		t0 := time.Now()
+		done, pv, _ := callWithWatchdog(time.Duration(n)*perItem*4+60*time.Second, l.Stop)
+		if !done || pv != nil {
+			w.Inconclusive(fmt.Sprintf("backlog: Stop did not return / panicked (%v)", pv))
+			return
+		}
+		got := map[string]int{}
+		for _, it := range rec.take() {
+			if it.Sink == sinkName {
+				got[idOf(it.JSON)]++
+			}
+		}
+		w.Eval(1)
+		w.Count("backlog_items", int64(n))
+		if int64(len(got))+l.GetDiscardCounter() != int64(n) {
+			w.Violate("C04:conservation:lost:backlog-"+policy, fmt.Sprintf("Stop returned after %v with a backlog of %v: delivered %d + discarded %d != submitted %d (nothing was dropped by policy: the buffer never filled)", time.Since(t0).Round(time.Millisecond), time.Duration(n)*perItem, len(got), l.GetDiscardCounter(), n), cs)
+		} else {
+			w.Distinct(fmt.Sprintf("backlog|%s|%v", policy, time.Duration(n)*perItem))
+			w.Sample(cs)
+		}
+	}
+}
+
 func c04Worker(w *W) {
+	if w.Spec.Kind == "backlog" {
+		c04backlog(w)
+		return
+	}
 	registerMonitorPlugins()
 	tag := log.RegisterTag("c04tag")
 	ctx := context.Background()
@@ -312,7 +368,7 @@ func init() {
 	register(&Prop{
 		ID: "C04", Level: "exploration", MinDistinct: 30, Worker: c04Worker,
 		Rule: "runs: AsyncLogger built directly (exported fields) or through Refresh, policy cycling over Block/Discard/DiscardOldest, buffer size in {100,101,128,1000}, 1-32 producers, appender fast/slow(60us)/gated-for-the-first-phase, with/without a logger-level layout, item mix of enabled events (3 levels), disabled-level events and raw writes, each item with a unique (producer,seq) id; producers are joined before Stop; " +
-			"yield points between enqueue/drop/worker steps are perturbed by a seeded callback. Oracle after Stop returned: delivered + discard counter = submitted at an enabled level, every delivered id submitted exactly once, nothing below the level delivered, Block => counter 0 and everything delivered. The same runs are repeated in a -race build. " +
+			"yield points between enqueue/drop/worker steps are perturbed by a seeded callback. Oracle after Stop returned: delivered + discard counter = submitted at an enabled level, every delivered id submitted exactly once, nothing below the level delivered, Block => counter 0 and everything delivered. The same runs are repeated in a -race build; one further run leaves a backlog of several seconds behind a 5 ms/item appender at the moment of Stop (Stop must wait for all of it). " +
 			"Non-trivial/distinct = distinct (policy, buffer, producers, appender, layout, construction, drops occurred) classes among runs whose counts were exact.",
 		Assumptions: []string{"items racing with Stop are excluded by the statement: producers are joined first", "schedules are those produced by the scheduler plus seeded yields (hit counts reported)"},
 		Run: func(d *D) {
@@ -330,6 +386,11 @@ func init() {
 				s.TimeoutS = 1500
 				specs = append(specs, s)
 			}
+			// a backlog of several seconds at the moment of Stop (quick: 2 x ~3 s, thorough: 2 x ~20 s)
+			b := d.NewSpec("backlog", "backlog", 200, 16)
+			b.N = d.Pick(600, 4000)
+			b.TimeoutS = 900
+			specs = append(specs, b)
 			outs := d.RunWorkers(specs, 16)
 			d.raceVerdict(outs)
 		},
